@@ -11,7 +11,7 @@ CHECKS = {
         text="Lean 4 theorems (C-finite extension: a closed form of known exponential-polynomial shape that agrees with A^n v on a window agrees for all n; Cayley-Hamilton annihilation of matrix sequences) plus an end-to-end correspondence run: the real pipeline's closed forms are evaluated exactly at n=0..N and compared with E(M) under the Lean reference semantics compiled from the same definitions. The theorem part is for all n; the tie to the code is differential and sampled.",
         design_ref="§4 C01, §2.2, §2.4",
         note="Trusted: Lean kernel + propext/Classical.choice/Quot.sound; Lean compiler for polar-model; harness generator/printer; sympy exact evaluation of Polar's own closed form at integers; textbook moment recurrences of continuous families. Modelled not verified: lark/symengine front end, sympy summation/roots.",
-        technique="Lean 4 proof (C-finite validator theorems) + differential correspondence against Lean reference semantics",
+        technique="Lean 4 proof: per-instance for-all-n chain (types inductive V1/V1C, one-step recurrences V2/V2C, C-finite window validator, merged run = un-merged run) + differential correspondence against the Lean reference semantics",
     ),
     "C08": dict(
         category="proof",
@@ -63,14 +63,14 @@ CHECKS.update({
         text="Per-instance translation validation judged by the Lean reference semantics: the real normalize_program is run with every Transformer.execute wrapped; the program after each pass is converted to the model AST and executed by the compiled Lean semantics; obligation per snapshot: same joint law over the source variables at n=0..3 (discrete programs) or same mixed moments up to degree 3, for two different initial values of all auxiliary variables (no information carried across iterations), for all four settings of cond2arithm / transform_categoricals. Universal pass theorems are not yet proved: the level is partial - the judge (semantics) is Lean, the quantifier over programs is sampled.",
         design_ref="§4 C02",
         note="Trusted: Lean kernel/compiler, the conversion of Polar's Program objects to the model AST (harness/tasks/convert.py). Not modelled: Bernoulli abstraction of non-finite conditions, Sin/Cos/Exp assignments.",
-        technique="translation validation per pass against a Lean reference semantics (Lean 4 model, differential correspondence)",
+        technique="Lean 4 proof: verified one-step bisimulation validator (V3/V3C soundness theorems, all n) applied to every real normalisation pass + differential correspondence against the Lean reference semantics",
     ),
     "C03": dict(
         category="proof",
         text="For every equation of every recurrence system the real RecBuilder produces on sampled programs: E(M)(n+1) = sum c_i E(M_i)(n) + c at n=0..N-1 and init = E(M)(0), expectations under the Lean reference semantics of the normalised program; closure of the system and agreement of the matrix/vector handed to the solvers with the dictionary are checked structurally. Partial: the universal theorem c03_one_step is not yet proved for the model of the builder.",
         design_ref="§4 C03",
         note="Trusted: Lean kernel/compiler (Polar/Sem.lean), AST conversion, sympy Rational arithmetic for coefficient values at the parameter point.",
-        technique="Lean reference semantics as oracle for one-step expectation identities (differential correspondence)",
+        technique="Lean 4 proof: verified one-step recurrence validator (V2/V2C soundness, recurrence_holds_forall_n) applied to every equation of the real RecBuilder + differential correspondence against the Lean reference semantics",
     ),
     "C04": dict(
         category="proof",
@@ -94,7 +94,7 @@ CHECKS.update({
         text="Each sampled program is analysed by the real pipeline under nine settings (cond2arithm, categorical expansion, both, forced cyclic solver, declared types with inference disabled, fixed-point budget 1, numeric_croots, numeric_roots); every goal that succeeds under a setting is compared at n=0..5 with the exact expectation of the Lean reference semantics (so all succeeding settings agree pairwise); results flagged exact must be exactly equal, numeric-root results must be flagged rounded and lie within a tolerance. The for-all-n extension of a sampled instance is C04's verified validator. Partial: no universal theorem about the option code paths yet; the precision clause is a tolerance test.",
         design_ref="§4 C17",
         note="Trusted: Lean kernel/compiler (reference semantics), sympy exact evaluation of closed forms. 'One side refuses' is recorded, not judged.",
-        technique="differential correspondence of the option matrix against a Lean reference semantics",
+        technique="Lean 4 proof (arithmetic encoding of conditions = guarded form on well-typed states, categorical expansion = choice, C-finite extension) + differential correspondence of the option matrix against the Lean reference semantics",
     ),
 })
 
@@ -111,7 +111,7 @@ CHECKS.update({
         text="Every generated AST is printed in 8 spellings (trivia, redundant parentheses, decimals, explicit last probability, temporaries for simultaneous assignment, nested else-if, all combined) plus arithmetic-precedence stress programs; the real parser's result for each spelling is executed by the Lean reference semantics and must have the law of the AST it was printed from, and the closed forms of the full pipeline must equal the exact expectations for each spelling; texts made ill-formed by 13 kinds of single edits and choices with invalid probability vectors must be rejected at the parse stage. Partial: the lark/symengine front end is tied differentially only; no model parser, so 'outside the grammar' is by construction of the edits.",
         design_ref="§4 C19",
         note="Trusted: Lean kernel/compiler (reference semantics), the harness pretty-printer.",
-        technique="differential correspondence of parser output against a Lean reference semantics over meaning-preserving respellings",
+        technique="Lean 4 proof (respelling theorems: temporaries for simultaneous assignment, explicit last probability, elif chains — same moments for all n) + differential correspondence of the real parser against the Lean reference semantics",
     ),
 })
 
@@ -138,7 +138,7 @@ CHECKS.update({
         text="For generated parametric programs both methods of the real tool (differentiating the closed form; DiffRecBuilder's sensitivity recurrences) are evaluated at n=0..3 and compared with the exact derivative d/dp E(M)(n) at the parameter point. The exact derivative comes from the Lean reference semantics: E(M)(n) is a polynomial in p; it is evaluated exactly at 13 parameter values, the degree bound 10 is verified by two spare points, and the derivative of the interpolating polynomial is taken. Partial: the theorems deriv_of_linear_rec / dependentVars_sound of the design are not yet proved.",
         design_ref="§4 C10",
         note="Trusted: Lean kernel/compiler (reference semantics), exact Lagrange interpolation in the harness.",
-        technique="Lean reference semantics + exact polynomial interpolation as derivative oracle (differential correspondence)",
+        technique="Lean 4 proof (solution of the differentiated recurrence system is the parameter derivative for all n; pruned system sound under closure hypotheses checked per instance; window validator) + differential correspondence with an exact derivative oracle",
     ),
     "C18": dict(
         category="proof",
@@ -152,7 +152,7 @@ CHECKS.update({
         text="The same jobs (program, goals, settings) are run each alone in a fresh process, and all in one process in random orders with repetitions and goal permutations, under several PYTHONHASHSEED values; canonical results (exact values of every goal, exactness flags, inferred types up to generated names, error outcomes) must coincide. Partial by nature: CPython hashing, lru_cache internals and object identity are runtime behaviour no executable model exhibits; the state-machine theorems of the design (alpha-independence of the name counter, memo transparency) are not yet proved.",
         design_ref="§4 C20",
         note="Trusted: canonicalisation of generated names (harness/tasks/session.py).",
-        technique="history / hash-seed differential testing of the real code (the part of the property a Lean model cannot exhibit); model theorems pending",
+        technique="Lean 4 proof (injective renaming of auxiliary names leaves all source moments unchanged for all n; applied per instance to the normalised programs of the two histories) + history / hash-seed differential testing of the real code",
     ),
 })
 
